@@ -56,4 +56,30 @@ chk("C17", "gbv/wirefmt+streamfsm",
     "buffers shorter than 2^31 bytes.",
     "DESIGN.md 5/C17")
 
+chk("C05", "gbv/lifecycle",
+    "goroutine inventory, blocking-operation classification, dominance (publish/close/release on every exit), context provenance, who-writes-what for shared cells; VTA reachability in thorough",
+    "Decides the structure that makes termination and cleanup hold under every timing: one goroutine; the handler unreachable from it; every blocking channel operation of the reader "
+    "escapable; every reader exit publishes then closes; connection close deferred on every exit after construction; the reader's context derived in Stream with a deferred cancel; Error()'s "
+    "receive nil-guarded and its channel always that of a started reader; shared cells and fields written only before the go statement; the parser's only wait is a select with ctx.Done(). "
+    "It does not decide wall-clock bounds, stalls inside driver handshake calls, or data races inside the driver.",
+    "driver facts listed in DESIGN section 2 (only Close unblocks ReadPacket); sync.Once / context / buffered channel semantics; handler and mapper return.",
+    "DESIGN.md 5/C05")
+
+chk("C06", "gbv/lifecycle+streamfsm",
+    "nil-ness dataflow on every exit, error-discipline check (test + failure region ends in a return derived from the error), classification by dominating conditions, sentinel-only filtering by edge-cut reachability",
+    "Decides: the parser returns nil only on channel-closed / ctx-done edges and provably non-nil errors elsewhere; Stream never returns a typed nil and returns nil only after the parser did; every "
+    "error result on the stream path is tested and propagated (one named exception); the packet decoder wraps the transport error, the master's error packet, and produces the EOF sentinel only for EOF "
+    "packets; the reason is published before any channel is closed; Error() can return nil for a received reason only through equality with context.Canceled / errStreamEOF. Timing (the caller-context "
+    "filter in Error()) is not decided.",
+    "driver facts (ReadPacket never returns empty slice with nil error; HandleErrorPacket decodes the master's message).",
+    "DESIGN.md 5/C06")
+
+chk("C07", "gbv/lifecycle",
+    "call-site enumeration on the driver interface + dominance + argument provenance through parameters and struct fields",
+    "Decides nearly the whole statement: the checksum announcement (constant checked by pattern) precedes the dump on every path and its failure aborts; exactly one NoticeDump site, outside loops, "
+    "once per Stream call, and no other driver write calls; server id = NewStreamer's parameter unconverted, offset = uint32(P.Offset) and file = P.Filename of the stored position read in this Stream "
+    "call, flags = constant 0. The driver's packet encoding is trusted.",
+    "driver NoticeDump/Exec encode what they are given.",
+    "DESIGN.md 5/C07")
+
 ENGINES[0]["serves_properties"] = sorted(CHECKS.keys())
